@@ -160,6 +160,7 @@ type parser struct {
 	toks []tok
 	p    int
 	src  string
+	noIn int
 }
 
 func parseExpr(src string) (e Expr, err error) {
@@ -220,7 +221,7 @@ func (ps *parser) expr(minPrec int) Expr {
 		var op string
 		if t.kind == "op" {
 			op = t.s
-		} else if t.kind == "id" && t.s == "in" {
+		} else if t.kind == "id" && t.s == "in" && ps.noIn == 0 {
 			op = "in"
 		}
 		if op == "?" && minPrec <= 3 {
@@ -285,7 +286,9 @@ func (ps *parser) unary() Expr {
 		ps.next()
 		n := ps.next()
 		ps.expectOp("=")
+		ps.noIn++
 		v := ps.expr(3)
+		ps.noIn--
 		if !ps.isID("in") {
 			ps.fail("expected 'in' after let binding")
 		}
